@@ -25,7 +25,6 @@ import (
 	"github.com/vimeo/dials/decoders/json/jsontypes"
 	tomldec "github.com/vimeo/dials/decoders/toml"
 	yamldec "github.com/vimeo/dials/decoders/yaml"
-	"github.com/vimeo/dials/ptrify"
 	"github.com/vimeo/dials/sources/env"
 	"github.com/vimeo/dials/sources/flag"
 	"github.com/vimeo/dials/sources/pflag"
@@ -46,9 +45,12 @@ type TypesCase struct {
 	Source string      `json:"source"`          // env | flag | pflag | json | yaml | toml | cue | manglers
 	Chain  string      `json:"chain,omitempty"` // mangler chain around a decoder / the chain under test
 	Shape  shape.Shape `json:"shape"`
-	Fill   uint64      `json:"fill"`    // seed of every fed value
-	SetPct int         `json:"set_pct"` // share of leaves that receive input
-	DefPct int         `json:"def_pct"` // share of leaves with a non-zero default (flag templates)
+	// Compiled, if set, names a compiler-made config type (compiledTypes) used
+	// instead of the shape: embedded shapes reflect.StructOf cannot build.
+	Compiled string `json:"compiled,omitempty"`
+	Fill     uint64 `json:"fill"`    // seed of every fed value
+	SetPct   int    `json:"set_pct"` // share of leaves that receive input
+	DefPct   int    `json:"def_pct"` // share of leaves with a non-zero default (flag templates)
 }
 
 // ---- deterministic per-path choices -------------------------------------------
@@ -350,6 +352,9 @@ func finish(c TypesCase, o typesOutcome) vrt.Verdict {
 	if c.Chain != "" {
 		labels = append(labels, "chain:"+c.Chain)
 	}
+	if c.Compiled != "" {
+		labels = append(labels, "compiled", "compiled:"+c.Compiled)
+	}
 	for k := range st.classes {
 		labels = append(labels, k)
 	}
@@ -363,7 +368,7 @@ func finish(c TypesCase, o typesOutcome) vrt.Verdict {
 		labels = append(labels, "returned-value")
 	}
 	namedNonScalar := st.classes["named-collection"] || st.classes["named-elem"]
-	return vrt.OK(namedNonScalar && o.fed > 0, labels...)
+	return vrt.OK((namedNonScalar || c.Compiled != "") && o.fed > 0, labels...)
 }
 
 func buildCase(c TypesCase) (T, pt reflect.Type, tmpl reflect.Value, v *vrt.Verdict) {
@@ -379,18 +384,33 @@ func buildCase(c TypesCase) (T, pt reflect.Type, tmpl reflect.Value, v *vrt.Verd
 	if js, jerr := json.Marshal(c); jerr == nil {
 		currentCase.Store(js)
 	}
-	T, err := c.Shape.Build()
-	if err != nil {
-		d := vrt.Discardf("shape does not build: %v", err)
-		return nil, nil, reflect.Value{}, &d
-	}
-	if k := flatCollision(c.Shape); k != "" {
-		d := vrt.Discardf("flattened leaf names collide (%s): outside the property's precondition", k)
-		return nil, nil, reflect.Value{}, &d
+	if c.Compiled != "" {
+		ct, ok := compiledByName(c.Compiled)
+		if !ok {
+			d := vrt.Discardf("unknown compiled type %q", c.Compiled)
+			return nil, nil, reflect.Value{}, &d
+		}
+		T = ct
+	} else {
+		var err error
+		T, err = c.Shape.Build()
+		if err != nil {
+			d := vrt.Discardf("shape does not build: %v", err)
+			return nil, nil, reflect.Value{}, &d
+		}
+		if k := flatCollision(c.Shape); k != "" {
+			d := vrt.Discardf("flattened leaf names collide (%s): outside the property's precondition", k)
+			return nil, nil, reflect.Value{}, &d
+		}
 	}
 	tmpl = reflect.New(T)
 	fillGeneric(tmpl.Elem(), "", chooser{seed: c.Fill, salt: "default", pct: c.DefPct})
-	pt = ptrify.Pointerify(T, tmpl.Elem())
+	pt, perr := pointerifySafe(T, tmpl.Elem())
+	if perr != nil {
+		// what dials.Config does first with every config type
+		d := vrt.KeyedViolationf("pointerify-panic", "%v", perr)
+		return nil, nil, reflect.Value{}, &d
+	}
 	return T, pt, tmpl, nil
 }
 
@@ -759,8 +779,14 @@ func genTypes(sources []string, chains []string) func(t *rapid.T) TypesCase {
 		if anyKnownFor(c.Source) {
 			behind = rapid.Bool().Draw(t, "behind_known")
 		}
-		s := shape.Gen(t, typesProfile(c.Source, behind))
-		c.Shape = makeFlatDistinct(s)
+		if rapid.IntRange(0, 5).Draw(t, "compiled") == 0 {
+			// a compiler-made type with embedded shapes StructOf cannot build
+			c.Compiled = rapid.SampledFrom(compiledTypes).Draw(t, "compiled_type").name
+			c.Shape = shape.Shape{Fields: []shape.Field{}}
+		} else {
+			s := shape.Gen(t, typesProfile(c.Source, behind))
+			c.Shape = makeFlatDistinct(s)
+		}
 		c.Fill = rapid.Uint64Range(1, 1<<48).Draw(t, "fill")
 		c.SetPct = rapid.SampledFrom([]int{100, 100, 70, 70, 40, 0}).Draw(t, "set_pct")
 		c.DefPct = rapid.SampledFrom([]int{0, 50, 100}).Draw(t, "def_pct")
@@ -770,10 +796,12 @@ func genTypes(sources []string, chains []string) func(t *rapid.T) TypesCase {
 
 const typesRuleCommon = "config struct types from the shape grammar restricted to NAMED leaves: named scalars (Level, Count, Ratio, Flag, Name, Timeout, Color, Phase, Tiny, Big), named slices / maps / sets, " +
 	"slices and maps whose element or key type is named, user-declared pointers to those (and to slices / maps, and pointers to pointers), collections of collections, text-unmarshalable leaves, a few predeclared leaves for contrast; " +
-	"nested, pointer-to-struct and embedded structs (EmbNamed, EmbPtr, EmbDeep, EmbA, EmbB, and EmbSlices / EmbSlicesTagged whose members are []Struct, [2]Struct, *Struct, map[string]Struct, []*Struct of a small dials-tagged struct; by value and by pointer; the members are left unset in a good share of cases: set_pct is 100, 70, 40 or 0), skipped fields in any position, occasional dials / dialsalias tags; depth<=2, <=6 fields per struct; root fields are renamed until all flattened leaf names are distinct. "
+	"nested, pointer-to-struct and embedded structs (EmbNamed, EmbPtr, EmbDeep, EmbA, EmbB, and EmbSlices / EmbSlicesTagged whose members are []Struct, [2]Struct, *Struct, map[string]Struct, []*Struct of a small dials-tagged struct; by value and by pointer; the members are left unset in a good share of cases: set_pct is 100, 70, 40 or 0), skipped fields in any position, occasional dials / dialsalias tags; depth<=2, <=6 fields per struct; root fields are renamed until all flattened leaf names are distinct. " +
+	"One case in six uses, instead of a generated shape, one of 7 COMPILED config types with embedded shapes reflect.StructOf cannot build: time.Time embedded between ordinary fields, *Stamp embedded next to a method-less embedded struct, embedded structs with ordinary value / pointer methods (by value and by pointer), nested named structs that embed time.Time / a struct with methods, slices / arrays / maps whose element struct embeds time.Time, a method-less struct or a struct with methods, and all of them at once; non-trivial for these = at least one leaf fed. "
 
 var typesAssumptions = []string{
 	"flattened leaf names are distinct (the generator renames; a replayed case that violates this is discarded)",
+	"a panic of ptrify.Pointerify on the config type (the first thing dials.Config does) is reported as a violation keyed pointerify-panic",
 	"the config type holds no interface-typed fields",
 	"about a third of the pointer-typed elements inside fed slices, arrays and maps are nil (a null inside a list or map is valid input wherever the format can spell it; an encoder that cannot, e.g. TOML, makes the case trivial)",
 	"input is valid: every fed value is built from a seed with finite floats and plain strings and spelled in the source's documented syntax (or with the format's own encoder)",
